@@ -41,7 +41,7 @@ MANIFEST = {
              "reader inverts the specification-level writer for every glyph description. Tie to the glif models of C02/C12: "
              "norad_encoder_read_by_spec_reader (in the tree of what encodeGlif writes - its event list IS encodeGlif - the independent reader "
              "finds exactly the glyph norad's own parser arrives at, preG of parse_encode, for every valid glyph), "
-             "norad_parser_reads_spec_writer (norad's attribute parsers read every element the specification-level writer writes) and norad_parser_reads_spec_document (parseGlif on the WHOLE document of specWrite, defaults spelt out, returns the described glyph: step-equivalence to the glif builder's generative grammar + legal_accepted_gdoc; hypotheses on the description only: DescLegal, decidable by desc_legal_decidable) and norad_parser_reads_other_spellings (defaults omitted, any attribute order, prolog comments, formatMinor, trailer: corollary of legal_accepted). "
+             "norad_parser_reads_spec_writer (norad's attribute parsers read every element the specification-level writer writes) and norad_parser_reads_spec_document (parseGlif on the WHOLE document of specWrite, defaults spelt out, returns the described glyph: step-equivalence to the glif builder's generative grammar + legal_accepted_gdoc; hypotheses on the description only: DescLegal, decidable by desc_legal_decidable) and norad_parser_reads_other_spellings (defaults omitted, any attribute order, prolog comments, formatMinor, trailer: corollary of legal_accepted), norad_parser_reads_spec_document_any_order (explicit ItemsPerm: elements of different kinds in any order, comments anywhere, outline re-arranged; <lib> before the objects whose libs it carries still attaches them) and norad_parser_reads_mixed_document (an independent written/omitted choice at every default-valued attribute site). "
              "designspace_attributes_are_spec_attributes: the serde names of src/designspace.rs, field by field, are the designspace "
              "specification's (a symmetric swap of two renames fails). Behavioural tie in both directions against an "
              "independent Python implementation; 22 surface-syntax defects recorded as known findings."),
